@@ -284,6 +284,21 @@ def decompose_and_order(graph, component, component_name, bo_start=0):
     # I save tags as key:(type, value), so "SO":(i, '123')
     coordinates = list(int(new_graph[n].tags["SO"][1]) for n in traversal_scaffold_only)
 
+    if len(coordinates) == 1:
+        # a single scaffold node cannot tell in which direction the line graph was traversed:
+        # compare the reference offsets of the two end bubbles instead
+        ref_sn = new_graph[traversal_scaffold_only[0]].tags["SN"]
+        end_offsets = []
+        for end in (traversal[0], traversal[-1]):
+            members = bubbles[int(end)] if scaffold_node_types[end] == "b" else [end]
+            offsets = [
+                int(new_graph[n].tags["SO"][1])
+                for n in members
+                if new_graph[n].tags.get("SN") == ref_sn
+            ]
+            end_offsets.append(min(offsets) if offsets else None)
+        if None not in end_offsets and end_offsets[0] > end_offsets[1]:
+            traversal.reverse()
     # make sure that the traversal is in ascending order
     if coordinates[0] > coordinates[-1]:
         traversal.reverse()
